@@ -166,3 +166,59 @@ Theorem C06_deleted_leaves_by_pos : forall (H : Type) (HO : ops H) (d1 d2 : list
   deleted_leaves HO d1 s1 = deleted_leaves HO d2 s2.
 Proof. exact deleted_leaves_by_pos. Qed.
 Print Assumptions C06_deleted_leaves_by_pos.
+
+(** ** Undo on the map forest (mirror [mm_undo] of MapPollard.Undo, Model/MapMut.v, compared with the
+    code state for state on every call; Proofs/MapMutUndo.v).  Proved for ADDITION blocks: a block of
+    any number of additions - dead slots, empty roots written over, a remap - followed by Undo with the
+    block's addition count and the previous roots returns to a state consistent with the forest before
+    the block (so every observable - roots, leaf count, positions, hashes, proofs - is the previous one,
+    by the read-side theorems of C09/C10), and this composes to any depth.  Blocks with deletions: the
+    single steps of undoDeletion are proved, the theorem for the whole loop is in progress; the general
+    statement was decided by computation on every forest of <= 5 slots (partial) / 7 slots (full) and is
+    validated by the correspondence run after every undo. *)
+From Utreexo Require Import Base.Hash Spec.Forest Model.MapRead Model.MapMut Proofs.MapReadSpec
+     Proofs.MapMutAdd Proofs.MapMutUndo.
+Open Scope N_scope.
+
+Theorem C06_map_forest_block_then_undo :
+  forall (H : Type) (HO : ops H), ops_ok HO ->
+  (forall x y, op_eqb HO (op_hash2 HO x y) (op_empty HO) = false) ->
+  forall (s : slots H) (R : list H) (m : mstate H) (adds : list (H * bool)),
+    MapMutAdd.Inv H HO s R m ->
+    N.of_nat (length s) + N.of_nat (length adds) <= 2 ^ 63 ->
+    MapMutAdd.adds_ok H HO s R (ms_full m) adds ->
+    (forall h, In (Some h) (s ++ map Some (map fst adds)) -> forall x y, h <> op_hash2 HO x y) ->
+    exists m1 m2,
+      mm_modify HO m adds [] [] [] = Some m1 /\
+      mm_undo HO m1 (N.of_nat (length adds)) [] [] [] (roots HO s) = Some m2 /\
+      consistent HO s R m2 /\ getRoots HO m2 = roots HO s /\ ms_n m2 = ms_n m /\
+      ms_total m <= ms_total m2 /\ ms_full m2 = ms_full m.
+Proof. exact modify_undo_adds. Qed.
+Print Assumptions C06_map_forest_block_then_undo.
+
+(** Undo alone, from any state in the invariant of the post-block forest (also after prunes / ingests
+    in between): the remembered leaves are the previous ones minus the undone additions *)
+Theorem C06_map_forest_undo_additions :
+  forall (H : Type) (HO : ops H), ops_ok HO ->
+  (forall x y, op_eqb HO (op_hash2 HO x y) (op_empty HO) = false) ->
+  forall (s0 : slots H) (adds R1 : list H) (m1 : mstate H),
+    UInv HO (s0 ++ map Some adds) R1 m1 ->
+    exists m2 R2,
+      mm_undo HO m1 (N.of_nat (length adds)) [] [] [] (roots HO s0) = Some m2 /\
+      consistent HO s0 R2 m2 /\ (forall x, In x R2 <-> In x R1 /\ ~ In x adds) /\
+      getRoots HO m2 = roots HO s0 /\ ms_n m2 = num_leaves s0.
+Proof. exact undo_adds_consistent. Qed.
+Print Assumptions C06_map_forest_undo_additions.
+
+(** "This composes": undoing the last k addition blocks newest first *)
+Theorem C06_map_forest_undo_depth_k :
+  forall (H : Type) (HO : ops H), ops_ok HO ->
+  (forall x y, op_eqb HO (op_hash2 HO x y) (op_empty HO) = false) ->
+  forall (bs : list (list H)) (s : slots H) (R : list H) (m : mstate H),
+    UInv HO (apply_adds H s bs) R m ->
+    exists m' R',
+      undo_add_blocks H HO s bs m = Some m' /\ UInv HO s R' m' /\
+      (forall x, In x R' <-> In x R /\ ~ In x (concat bs)) /\
+      ms_n m' = N.of_nat (length s) /\ ms_total m' = ms_total m /\ ms_full m' = ms_full m.
+Proof. exact undo_adds_depth. Qed.
+Print Assumptions C06_map_forest_undo_depth_k.
